@@ -217,6 +217,10 @@ func (s *Sched) StopLags() time.Duration {
 	s.mu.Lock()
 	defer s.mu.Unlock()
 	s.cfg.LagPM, s.cfg.LagWakePM = 0, 0
+	// ... and so do the global stalls: a settle period that is eaten by a stall of minutes
+	// (time passes, nothing happens) would let quiescence be judged on a system that has
+	// not had its time yet
+	s.cfg.StallPM = 0
 	var left time.Duration
 	now := time.Now()
 	for _, l := range s.lagSpans {
